@@ -144,8 +144,9 @@ def run(report, index, tier):
         'emitted text.')
     rule_skeleton(report, index, 'R01.1')
     guard_tokens(report, index, M, 'R01.6')
-    from . import c15
+    from . import c15, c14
     c15.rules(report, index)
+    c14.rules(report, index)
     from .arrays import array_rule
     array_rule(report, index, M, 'R01.1e',
                bound=11 if tier == 'thorough' else 8)
@@ -155,6 +156,10 @@ def run(report, index, tier):
     fusion_rule(report, E, 'R01.2', 'no token fusion under the indent '
                 'table', handlers, handled)
     r013(report, E, M, handlers, handled)
+    from .runs import uniformity_rule
+    uniformity_rule(report, M, E.T, 'R01.8', [('indent table', handlers)])
+    from .c13 import line_comment_rule
+    line_comment_rule(report, index, M, E.T, 'R01.9')
     r014(report, index)
     r015(report, M)
     report.not_decided += [
